@@ -209,6 +209,13 @@ def run_c08(ctx):
             G.add_orphans(rng, M)
         if rng.random() < 0.15:
             G.make_discontinuous(rng, M)
+        if rng.random() < 0.15:      # twin cells: two cells of one type connecting exactly the same points
+            t, rows = rng.choice(M["blocks"])
+            j = rng.randrange(len(rows))
+            rows.append(list(rows[j]))
+            for per in M["cf"].values():
+                if t in per:
+                    per[t].append(per[t][j])
         seq = [rng.choice(ops) for _ in range(rng.randint(1, 4))]
         before = G.content(M)
         canon = {"mesh": json_mesh(M), "ops": seq}
@@ -219,6 +226,7 @@ def run_c08(ctx):
                 cur_dim = M["dim"]
                 applied = []
                 for op in seq:
+                    Mb_before = G.from_fieldcompare(f)
                     if op == "sort_points":
                         g = sort_points(f)
                     elif op == "sort_cells":
@@ -236,6 +244,8 @@ def run_c08(ctx):
                     # per-step checks
                     Mb = G.from_fieldcompare(f)
                     Ma = G.from_fieldcompare(g)
+                    if Mb != Mb_before:
+                        ctx.violation("E4", f"transformation '{op}' modified the data set it was given", canon)
                     pid_b, _ = markers_of(f)
                     pid_a, cid_a = markers_of(g)
                     if op in ("strip", "sort_points", "sort", "sort_cells"):
@@ -259,6 +269,9 @@ def run_c08(ctx):
                     applied.append(op)
                     f = g
                 after_M = strip_markers(G.from_fieldcompare(f))
+        except InputModified as e:
+            ctx.violation("E4", str(e), canon)
+            continue
         except Exception as e:  # noqa: BLE001
             if G.has_coincident_points(M) and "uniquely sort duplicate" in str(e):
                 ctx.count("c08:duplicate orphan points (documented limitation)")
@@ -337,7 +350,19 @@ def split_and_merge(rng, f, merge):
             per = P["cf"].pop("__cid")
             extra_c["__cid"] = [np.array(per[t], dtype=np.int64) for t, _ in P["blocks"]]
         fs.append(G.to_fieldcompare(P, extra_p, extra_c))
-    return merge(fs[0], fs[1])
+    before = [G.from_fieldcompare(x) for x in fs]
+    merged = merge(fs[0], fs[1])
+    first = G.from_fieldcompare(merged)
+    # the pieces must be left exactly as they were, and merging them again must give the same result
+    if [G.from_fieldcompare(x) for x in fs] != before:
+        raise InputModified("merge modified the data of a piece it was given")
+    if G.from_fieldcompare(merge(fs[0], fs[1])) != first:
+        raise InputModified("merging the same pieces a second time gives a different result")
+    return merged
+
+
+class InputModified(Exception):
+    pass
 
 
 def extend_violation(Mb, Ma):
@@ -577,6 +602,7 @@ def modifications(rng, M, all_sites):
         for j in (range(len(rows)) if all_sites else [rng.randrange(len(rows))]):
             sites.append(("rewire", bi, j, rng.randrange(len(rows[j]))))
             sites.append(("remove_cell", bi, j))
+            sites.append(("duplicate_cell", bi, j))
         sites.append(("drop_block", bi))
     for name in M["pf"]:
         for i in (used if all_sites else rng.sample(used, min(2, len(used)))):
@@ -608,6 +634,13 @@ def modifications(rng, M, all_sites):
             for per in N["cf"].values():
                 if t in per:
                     per[t].pop(j)
+        elif s[0] == "duplicate_cell":
+            _, bi, j = s
+            t = N["blocks"][bi][0]
+            N["blocks"][bi][1].append(list(N["blocks"][bi][1][j]))      # a twin cell connecting exactly the same points
+            for per in N["cf"].values():
+                if t in per:
+                    per[t].append(per[t][j])
         elif s[0] == "drop_block":
             _, bi = s
             if len(N["blocks"]) == 1:
@@ -676,7 +709,7 @@ def run_c03(ctx):
                 continue
             if res["bool"]:
                 ctx.violation("E4", f"comparison PASSES although the data sets differ ({desc[0]})", canon, impl=res)
-            elif desc[0] in ("move", "rewire", "remove_cell", "drop_block") and direct and not reorder:
+            elif desc[0] in ("move", "rewire", "remove_cell", "duplicate_cell", "drop_block") and direct and not reorder:
                 ctx.violation("E4", f"Mesh.equals answers 'equal' although the meshes differ ({desc[0]})", canon)
             ctx.traces_validated += 1
     run_stage_batch(ctx, stage_batch)
